@@ -585,9 +585,9 @@ theorem step_acked_cases (s : State) (isData : Bool) (pn len : Nat) :
         ∧ step s (.acked isData pn len) = ({ s with det := s.det.onNonProbeAcked pn len }, .bool false))
     ∨ (isData = true ∧ ∃ e st, s.state = some e ∧ e.phase = .searching st ∧ st.inFlightProbe = some pn
         ∧ step s (.acked isData pn len) =
-            ({ currentMtu := st.lastProbedMtu,
-               state := some { e with phase := .searching { st with inFlightProbe := none, lostProbeCount := 0 } },
-               det := s.det.onProbeAcked pn len }, .bool true)) := by
+            ({ s with currentMtu := st.lastProbedMtu,
+                      state := some { e with phase := .searching { st with inFlightProbe := none, lostProbeCount := 0 } },
+                      det := s.det.onProbeAcked pn len }, .bool true)) := by
   cases isData with
   | false => left; simp [step, onAcked]
   | true =>
@@ -613,20 +613,21 @@ theorem step_acked_cases (s : State) (isData : Bool) (pn len : Nat) :
 
 theorem reset_enabled (s : State) (c m : Nat) (e : Enabled) (h : s.state = some e) :
     reset s c m = { currentMtu := Gen.mtudPeerClamp c e.peerMax, state := some ⟨.initial, e.peerMax, e.config⟩,
-                    det := Detector.new m } := by
+                    det := Detector.new m, peerMax := e.peerMax } := by
   simp [reset, h, onPeerMax, Enabled.new]
 
 theorem reset_disabled (s : State) (c m : Nat) (h : s.state = none) :
-    reset s c m = { currentMtu := c, state := none, det := Detector.new m } := by
+    reset s c m = { currentMtu := Gen.mtudResetClamp c s.peerMax, state := none, det := Detector.new m,
+                    peerMax := s.peerMax } := by
   simp [reset, h]
 
 /-- `on_peer_max_udp_payload_size_received`: the deliberate panic, exactly while a search is running -/
 theorem peerMax_cases (s : State) (v : Nat) :
-    (s.state = none ∧ onPeerMax s v = ({ s with currentMtu := Gen.mtudPeerClamp s.currentMtu v }, .unit))
+    (s.state = none ∧ onPeerMax s v = ({ s with currentMtu := Gen.mtudPeerClamp s.currentMtu v, peerMax := v }, .unit))
     ∨ (∃ e st, s.state = some e ∧ e.phase = .searching st
-        ∧ onPeerMax s v = ({ s with currentMtu := Gen.mtudPeerClamp s.currentMtu v }, .panic))
+        ∧ onPeerMax s v = ({ s with currentMtu := Gen.mtudPeerClamp s.currentMtu v, peerMax := v }, .panic))
     ∨ (∃ e, s.state = some e ∧ (∀ st, e.phase ≠ .searching st)
-        ∧ onPeerMax s v = ({ s with currentMtu := Gen.mtudPeerClamp s.currentMtu v,
+        ∧ onPeerMax s v = ({ s with currentMtu := Gen.mtudPeerClamp s.currentMtu v, peerMax := v,
                                     state := some { e with peerMax := v } }, .unit)) := by
   cases hs : s.state with
   | none => left; simp [onPeerMax, hs]
@@ -642,9 +643,9 @@ theorem bhd_cases (s : State) (now : Nat) :
         ∧ step s (.blackHole now) = ({ s with det := s.det.blackHoleDetected.1 }, .bool false))
     ∨ (s.det.blackHoleDetected.2 = true
         ∧ step s (.blackHole now) =
-            ({ currentMtu := s.det.blackHoleDetected.1.minMtu,
-               state := s.state.map (fun e => e.onBlackHoleDetected now),
-               det := s.det.blackHoleDetected.1 }, .bool true)) := by
+            ({ s with currentMtu := Gen.mtudBlackHoleMtu s.currentMtu s.det.blackHoleDetected.1.minMtu,
+                      state := s.state.map (fun e => e.onBlackHoleDetected now),
+                      det := s.det.blackHoleDetected.1 }, .bool true)) := by
   cases h : s.det.blackHoleDetected with
   | mk d b =>
     cases b with
@@ -713,11 +714,17 @@ theorem pollTransmit_g (e : Enabled) (now cur pn : Nat) (hg : ∀ st, e.phase = 
     exact pollSearching_g e st now pn (hg st hph) e' r heq
 
 /-- bounds of a running search never exceed the peer limit; the burst table holds at most THRESHOLD + 1 entries -/
-def GInv (s : State) : Prop :=
+def GInv0 (s : State) : Prop :=
   (∀ e, s.state = some e → ∀ st, e.phase = .searching st → GOk e.peerMax st)
   ∧ s.det.bursts.length ≤ Gen.mtudBlackHoleThreshold + 1
 
-theorem step_ginv (s : State) (op : Op) (hg : GInv s) (hp : (step s op).2 ≠ .panic) : GInv (step s op).1 := by
+/-- … and the limit stored in the discovery state is the one remembered at the top level -/
+def GInv (s : State) : Prop :=
+  (∀ e, s.state = some e → ∀ st, e.phase = .searching st → GOk e.peerMax st)
+  ∧ s.det.bursts.length ≤ Gen.mtudBlackHoleThreshold + 1
+  ∧ (∀ e, s.state = some e → e.peerMax = s.peerMax)
+
+theorem step_ginv0 (s : State) (op : Op) (hg : GInv0 s) (hp : (step s op).2 ≠ .panic) : GInv0 (step s op).1 := by
   obtain ⟨hs, hd⟩ := hg
   cases op with
   | poll now pn =>
@@ -794,6 +801,78 @@ theorem step_ginv (s : State) (op : Op) (hg : GInv s) (hp : (step s op).2 ≠ .p
       refine ⟨fun e'' he'' => ?_, by simp [Detector.new]⟩
       simp only [Option.some.injEq] at he''; subst he''
       intro st' h'; simp at h'
+
+theorem step_pmeq (s : State) (op : Op) (hg : GInv0 s) (hq : ∀ e, s.state = some e → e.peerMax = s.peerMax)
+    (hp : (step s op).2 ≠ .panic) : ∀ e, (step s op).1.state = some e → e.peerMax = (step s op).1.peerMax := by
+  cases op with
+  | poll now pn =>
+    cases hst : s.state with
+    | none => rw [step_poll_disabled s now pn hst]; exact hq
+    | some e =>
+      cases hpt : e.pollTransmit now s.currentMtu pn with
+      | mk e' r =>
+        obtain ⟨hpm, _⟩ := pollTransmit_g e now s.currentMtu pn (hg.1 e hst) e' r hpt
+        cases r with
+        | none => rw [step_poll_panic s now pn e e' hst hpt] at hp; simp at hp
+        | some r =>
+          rw [step_poll_some s now pn e e' r hst hpt]
+          intro e'' he''
+          simp only [Option.some.injEq] at he''; subst he''
+          rw [hpm]; exact hq e hst
+  | acked isData pn len =>
+    rcases step_acked_cases s isData pn len with ⟨_, h⟩ | ⟨_, _, h⟩ | ⟨_, e, st, he, hph, hfl, h⟩
+    · rw [h]; exact hq
+    · rw [h]; exact hq
+    · rw [h]
+      intro e'' he''
+      simp only [Option.some.injEq] at he''; subst he''
+      exact hq e he
+  | probeLost =>
+    simp only [step, onProbeLost]
+    intro e'' he''
+    cases hst : s.state with
+    | none => simp [hst] at he''
+    | some e =>
+      simp only [hst, Option.map_some, Option.some.injEq] at he''; subst he''
+      have : (Enabled.onProbeLost e).peerMax = e.peerMax := by unfold Enabled.onProbeLost; split <;> rfl
+      rw [this]; exact hq e hst
+  | nonProbeLost pn len =>
+    simp only [step, onNonProbeLost] at hp ⊢
+    cases hl : s.det.onNonProbeLost pn len with
+    | none => simp [hl] at hp
+    | some d' => simp only [hl]; exact hq
+  | blackHole now =>
+    rcases bhd_cases s now with ⟨_, h⟩ | ⟨_, h⟩
+    · rw [h]; exact hq
+    · rw [h]
+      intro e'' he''
+      cases hst : s.state with
+      | none => simp [hst] at he''
+      | some e =>
+        simp only [hst, Option.map_some, Option.some.injEq] at he''; subst he''
+        exact hq e hst
+  | peerMax v =>
+    simp only [step] at hp ⊢
+    rcases peerMax_cases s v with ⟨hn, h⟩ | ⟨e, st, _, _, h⟩ | ⟨e, he, hns, h⟩
+    · rw [h]; intro e' he'; simp [hn] at he'
+    · rw [h] at hp; simp at hp
+    · rw [h]
+      intro e'' he''
+      simp only [Option.some.injEq] at he''; subst he''
+      rfl
+  | reset c m =>
+    simp only [step]
+    cases hst : s.state with
+    | none => rw [reset_disabled s c m hst]; intro e' he'; simp at he'
+    | some e =>
+      rw [reset_enabled s c m e hst]
+      intro e'' he''
+      simp only [Option.some.injEq] at he''; subst he''
+      rfl
+
+theorem step_ginv (s : State) (op : Op) (hg : GInv s) (hp : (step s op).2 ≠ .panic) : GInv (step s op).1 :=
+  have h0 := step_ginv0 s op ⟨hg.1, hg.2.1⟩ hp
+  ⟨h0.1, h0.2, step_pmeq s op ⟨hg.1, hg.2.1⟩ hg.2.2 hp⟩
 
 /-- every probe size returned by `poll_transmit` is at most the peer's max_udp_payload_size (no assumptions) -/
 theorem poll_probe_le_peer (s : State) (hg : GInv s) (now pn p : Nat) (h : (step s (.poll now pn)).2 = .probe (some p)) :
@@ -943,12 +1022,13 @@ theorem step_poll_mtu (s : State) (now pn : Nat) : (step s (.poll now pn)).1.cur
       | some r => rw [step_poll_some s now pn e e' r hst hpt]; exact ⟨rfl, rfl⟩
 
 /-- `current_mtu` changes only by: the ack of the in-flight probe (to exactly the probed size), a peer limit
-    (down to that limit), a detected black hole (to `min_mtu`), or `reset` -/
+    (down to that limit), a detected black hole (down to `min_mtu`), or `reset` -/
 theorem mtu_change (s : State) (op : Op) (hne : (step s op).1.currentMtu ≠ s.currentMtu) :
     (∃ pn len e st, op = .acked true pn len ∧ s.state = some e ∧ e.phase = .searching st
         ∧ st.inFlightProbe = some pn ∧ (step s op).1.currentMtu = st.lastProbedMtu ∧ (step s op).2 = .bool true)
     ∨ (∃ v, op = .peerMax v ∧ (step s op).1.currentMtu = v ∧ v < s.currentMtu)
-    ∨ (∃ now, op = .blackHole now ∧ (step s op).2 = .bool true ∧ (step s op).1.currentMtu = s.det.minMtu)
+    ∨ (∃ now, op = .blackHole now ∧ (step s op).2 = .bool true ∧ (step s op).1.currentMtu = s.det.minMtu
+        ∧ s.det.minMtu < s.currentMtu)
     ∨ (∃ c m, op = .reset c m) := by
   cases op with
   | poll now pn => exact absurd (step_poll_mtu s now pn).1 hne
@@ -965,7 +1045,15 @@ theorem mtu_change (s : State) (op : Op) (hne : (step s op).1.currentMtu ≠ s.c
     rcases bhd_cases s now with ⟨_, h⟩ | ⟨_, h⟩
     · rw [h] at hne; exact absurd rfl hne
     · right; right; left
-      exact ⟨now, rfl, by rw [h], by rw [h]; exact (detector_bhd_facts s.det).1⟩
+      have hmin := (detector_bhd_facts s.det).1
+      rw [h] at hne ⊢
+      simp only [hmin, Gen.mtudBlackHoleMtu, Nat.min_def] at hne ⊢
+      split at hne
+      · exact absurd rfl hne
+      · rename_i hgt
+        refine ⟨now, rfl, ?_⟩
+        simp only [hgt, if_false, true_and]
+        omega
   | peerMax v =>
     right; left
     refine ⟨v, rfl, ?_⟩
@@ -987,153 +1075,160 @@ theorem acked_raises (s : State) (hi : SInv s) (e : Enabled) (st : SearchState) 
 /-! ### floor and ceiling -/
 
 /-- `current_mtu ≥ min(min_mtu, peer max_udp_payload_size)` -/
-def Floor (s : State) : Prop := ∀ e, s.state = some e → Nat.min s.det.minMtu e.peerMax ≤ s.currentMtu
+def Floor (s : State) : Prop := Nat.min s.det.minMtu s.peerMax ≤ s.currentMtu
 
-/-- additional assumptions for the floor as a STATE invariant: `reset` is called like `PathData::reset` does
-    (initial MTU ≥ min_mtu), and a later peer limit is not larger than an earlier one -/
-def FloorContract (s : State) : Op → Prop
+/-- what `PathData::reset` guarantees: the MTU it resets to is `max(initial_mtu, min_mtu) ≥ min_mtu` -/
+def ResetContract (_ : State) : Op → Prop
   | .reset c m => m ≤ c
-  | .peerMax v => ∀ e, s.state = some e → v ≤ e.peerMax
   | _ => True
 
-theorem step_floor (s : State) (op : Op) (hi : SInv s) (hf : Floor s) (hc : Contract s op) (hfc : FloorContract s op)
-    (hp : (step s op).2 ≠ .panic) : Floor (step s op).1 := by
-  cases op with
-  | poll now pn =>
-    cases hst : s.state with
-    | none => rw [step_poll_disabled s now pn hst]; exact hf
-    | some e =>
-      obtain ⟨h3, hs⟩ := hi e hst
-      obtain ⟨e', r, hpt, hpm, _⟩ := pollTransmit_ok e now s.currentMtu pn h3 hs
-      rw [step_poll_some s now pn e e' r hst hpt]
-      intro e'' he''
-      simp only [Option.some.injEq] at he''; subst he''
-      rw [hpm]; exact hf e hst
-  | acked isData pn len =>
-    rcases step_acked_cases s isData pn len with ⟨_, h⟩ | ⟨_, _, h⟩ | ⟨_, e, st, he, hph, hfl, h⟩
-    · rw [h]; exact hf
-    · rw [h]; intro e he
-      simp only [(detector_acked_facts s.det pn len).2.2.1]; exact hf e he
-    · rw [h]
-      intro e'' he''
-      simp only [Option.some.injEq] at he''; subst he''
-      have := acked_raises s hi e st pn he hph hfl
-      have := hf e he
-      simp only [(detector_acked_facts s.det pn len).1]
-      omega
-  | probeLost =>
-    simp only [step, onProbeLost]
-    intro e'' he''
-    cases hst : s.state with
-    | none => simp [hst] at he''
-    | some e =>
-      simp only [hst, Option.map_some, Option.some.injEq] at he''; subst he''
-      have : (Enabled.onProbeLost e).peerMax = e.peerMax := by unfold Enabled.onProbeLost; split <;> rfl
-      rw [this]; exact hf e hst
-  | nonProbeLost pn len =>
-    simp only [step, onNonProbeLost] at hp ⊢
-    cases hl : s.det.onNonProbeLost pn len with
-    | none => simp [hl] at hp
-    | some d' =>
-      simp only [hl]; intro e he
-      simp only [(detector_lost_facts s.det d' pn len hl).1]; exact hf e he
-  | blackHole now =>
-    have hmin := (detector_bhd_facts s.det).1
-    rcases bhd_cases s now with ⟨_, h⟩ | ⟨_, h⟩
-    · rw [h]; intro e he; simp only [hmin]; exact hf e he
-    · rw [h]; intro e'' _; simp only; exact Nat.min_le_left _ _
-  | peerMax v =>
-    simp only [step] at hp ⊢
-    rcases peerMax_cases s v with ⟨hn, h⟩ | ⟨e, st, _, _, h⟩ | ⟨e, he, hns, h⟩
-    · rw [h]; intro e' he'; simp [hn] at he'
-    · rw [h] at hp; simp at hp
-    · rw [h]
-      intro e'' he''
-      simp only [Option.some.injEq] at he''; subst he''
-      have h1 := hf e he
-      have h2 := hfc e he
-      simp only [Gen.mtudPeerClamp, Nat.min_def] at h1 ⊢
-      split at h1 <;> split <;> split <;> omega
-  | reset c m =>
+/-- additional assumption for the floor as a STATE invariant: a later peer limit is not larger than an earlier one
+    (otherwise the floor itself rises above an estimate that was clamped by the earlier limit) -/
+def PeerMonotone (s : State) : Op → Prop
+  | .peerMax v => v ≤ s.peerMax
+  | _ => True
+
+/-- a step that LOWERS `current_mtu` never lands below the floor of the resulting state -/
+theorem fall_not_below_floor (s : State) (op : Op) (hi : SInv s) (hr : ResetContract s op)
+    (hlt : (step s op).1.currentMtu < s.currentMtu) :
+    Nat.min (step s op).1.det.minMtu (step s op).1.peerMax ≤ (step s op).1.currentMtu := by
+  rcases mtu_change s op (by omega) with ⟨pn, len, e, st, _, h2, h3, h4, h5, _⟩ | ⟨v, h1, h2, _⟩ | ⟨now, h1, _, h3, _⟩ | ⟨c, m, h1⟩
+  · have := acked_raises s hi e st pn h2 h3 h4; omega
+  · subst h1
+    have hpm : (step s (.peerMax v)).1.peerMax = v := by
+      simp only [step]
+      rcases peerMax_cases s v with ⟨_, h⟩ | ⟨_, _, _, _, h⟩ | ⟨_, _, _, h⟩ <;> rw [h]
+    rw [hpm, h2]; exact Nat.min_le_right _ _
+  · subst h1
+    have hmin : (step s (.blackHole now)).1.det.minMtu = s.det.minMtu := by
+      rcases bhd_cases s now with ⟨_, h⟩ | ⟨_, h⟩ <;> rw [h] <;> exact (detector_bhd_facts s.det).1
+    rw [hmin, h3]; exact Nat.min_le_left _ _
+  · subst h1
+    have hmc : m ≤ c := hr
     simp only [step]
     cases hst : s.state with
-    | none => rw [reset_disabled s c m hst]; intro e' he'; simp at he'
+    | none =>
+      rw [reset_disabled s c m hst]
+      simp only [Gen.mtudResetClamp, Detector.new, Nat.min_def]
+      split <;> split <;> omega
     | some e =>
       rw [reset_enabled s c m e hst]
-      intro e'' he''
-      simp only [Option.some.injEq] at he''; subst he''
-      have : m ≤ c := hfc
       simp only [Gen.mtudPeerClamp, Detector.new, Nat.min_def]
       split <;> split <;> omega
 
-/-- `current_mtu ≤ peer max_udp_payload_size`, or it is the `min_mtu` a black hole fell back to -/
-def Ceil (s : State) : Prop := ∀ e, s.state = some e → s.currentMtu ≤ e.peerMax ∨ s.currentMtu ≤ s.det.minMtu
+theorem step_floor (s : State) (op : Op) (hi : SInv s) (hf : Floor s) (hc : Contract s op) (hr : ResetContract s op)
+    (hm : PeerMonotone s op) (hp : (step s op).2 ≠ .panic) : Floor (step s op).1 := by
+  unfold Floor at hf ⊢
+  by_cases hlt : (step s op).1.currentMtu < s.currentMtu
+  · exact fall_not_below_floor s op hi hr hlt
+  · -- the estimate did not fall: the floor can only move through `reset` (handled above or below) or a peer limit
+    cases op with
+    | poll now pn =>
+      have hpoll := step_poll_mtu s now pn
+      have hpm : (step s (.poll now pn)).1.peerMax = s.peerMax := by
+        cases hst : s.state with
+        | none => rw [step_poll_disabled s now pn hst]
+        | some e =>
+          cases hpt : e.pollTransmit now s.currentMtu pn with
+          | mk e' r =>
+            cases r with
+            | none => rw [step_poll_panic s now pn e e' hst hpt]
+            | some r => rw [step_poll_some s now pn e e' r hst hpt]
+      rw [hpoll.1, hpoll.2, hpm]; exact hf
+    | acked isData pn len =>
+      rcases step_acked_cases s isData pn len with ⟨_, h⟩ | ⟨_, _, h⟩ | ⟨_, e, st, he, hph, hfl, h⟩
+      · rw [h]; exact hf
+      · rw [h]; simp only [(detector_acked_facts s.det pn len).2.2.1]; exact hf
+      · rw [h] at hlt ⊢
+        simp only [(detector_acked_facts s.det pn len).1] at hlt ⊢
+        omega
+    | probeLost => simp only [step, onProbeLost]; exact hf
+    | nonProbeLost pn len =>
+      simp only [step, onNonProbeLost] at hp ⊢
+      cases hl : s.det.onNonProbeLost pn len with
+      | none => simp [hl] at hp
+      | some d' => simp only [hl, (detector_lost_facts s.det d' pn len hl).1]; exact hf
+    | blackHole now =>
+      have hmin := (detector_bhd_facts s.det).1
+      rcases bhd_cases s now with ⟨_, h⟩ | ⟨_, h⟩
+      · rw [h]; simp only [hmin]; exact hf
+      · rw [h] at hlt ⊢
+        simp only [hmin, Gen.mtudBlackHoleMtu, Nat.min_def] at hlt hf ⊢
+        split at hf <;> split <;> split <;> omega
+    | peerMax v =>
+      have hv : v ≤ s.peerMax := hm
+      simp only [step] at hp hlt ⊢
+      rcases peerMax_cases s v with ⟨_, h⟩ | ⟨_, _, _, _, h⟩ | ⟨_, _, _, h⟩
+      · rw [h] at hlt ⊢
+        simp only [Gen.mtudPeerClamp, Nat.min_def] at hlt hf ⊢
+        split at hf <;> split <;> split <;> omega
+      · rw [h] at hp; simp at hp
+      · rw [h] at hlt ⊢
+        simp only [Gen.mtudPeerClamp, Nat.min_def] at hlt hf ⊢
+        split at hf <;> split <;> split <;> omega
+    | reset c m =>
+      have hmc : m ≤ c := hr
+      simp only [step]
+      cases hst : s.state with
+      | none =>
+        rw [reset_disabled s c m hst]
+        simp only [Gen.mtudResetClamp, Detector.new, Nat.min_def]
+        split <;> split <;> omega
+      | some e =>
+        rw [reset_enabled s c m e hst]
+        simp only [Gen.mtudPeerClamp, Detector.new, Nat.min_def]
+        split <;> split <;> omega
+
+/-- `current_mtu ≤ peer max_udp_payload_size` (the limit as remembered by the component) -/
+def Ceil (s : State) : Prop := s.currentMtu ≤ s.peerMax
 
 theorem step_ceil (s : State) (op : Op) (hg : GInv s) (hc : Ceil s) (hp : (step s op).2 ≠ .panic) :
     Ceil (step s op).1 := by
+  unfold Ceil at hc ⊢
   cases op with
   | poll now pn =>
-    cases hst : s.state with
-    | none => rw [step_poll_disabled s now pn hst]; exact hc
-    | some e =>
-      cases hpt : e.pollTransmit now s.currentMtu pn with
-      | mk e' r =>
-        obtain ⟨hpm, _⟩ := pollTransmit_g e now s.currentMtu pn (hg.1 e hst) e' r hpt
-        cases r with
-        | none => rw [step_poll_panic s now pn e e' hst hpt] at hp; simp at hp
-        | some r =>
-          rw [step_poll_some s now pn e e' r hst hpt]
-          intro e'' he''
-          simp only [Option.some.injEq] at he''; subst he''
-          rw [hpm]; exact hc e hst
+    have hpoll := step_poll_mtu s now pn
+    have hpm : (step s (.poll now pn)).1.peerMax = s.peerMax := by
+      cases hst : s.state with
+      | none => rw [step_poll_disabled s now pn hst]
+      | some e =>
+        cases hpt : e.pollTransmit now s.currentMtu pn with
+        | mk e' r =>
+          cases r with
+          | none => rw [step_poll_panic s now pn e e' hst hpt]
+          | some r => rw [step_poll_some s now pn e e' r hst hpt]
+    rw [hpoll.1, hpm]; exact hc
   | acked isData pn len =>
     rcases step_acked_cases s isData pn len with ⟨_, h⟩ | ⟨_, _, h⟩ | ⟨_, e, st, he, hph, hfl, h⟩
     · rw [h]; exact hc
-    · rw [h]; intro e he
-      simp only [(detector_acked_facts s.det pn len).2.2.1]; exact hc e he
+    · rw [h]; exact hc
     · rw [h]
-      intro e'' he''
-      simp only [Option.some.injEq] at he''; subst he''
-      left; exact (hg.1 e he st hph).last
-  | probeLost =>
-    simp only [step, onProbeLost]
-    intro e'' he''
-    cases hst : s.state with
-    | none => simp [hst] at he''
-    | some e =>
-      simp only [hst, Option.map_some, Option.some.injEq] at he''; subst he''
-      have : (Enabled.onProbeLost e).peerMax = e.peerMax := by unfold Enabled.onProbeLost; split <;> rfl
-      rw [this]; exact hc e hst
+      have h1 := (hg.1 e he st hph).last
+      have h2 := hg.2.2 e he
+      simp only; omega
+  | probeLost => simp only [step, onProbeLost]; exact hc
   | nonProbeLost pn len =>
     simp only [step, onNonProbeLost] at hp ⊢
     cases hl : s.det.onNonProbeLost pn len with
     | none => simp [hl] at hp
-    | some d' =>
-      simp only [hl]; intro e he
-      simp only [(detector_lost_facts s.det d' pn len hl).1]; exact hc e he
+    | some d' => simp only [hl]; exact hc
   | blackHole now =>
-    have hmin := (detector_bhd_facts s.det).1
     rcases bhd_cases s now with ⟨_, h⟩ | ⟨_, h⟩
-    · rw [h]; intro e he; simp only [hmin]; exact hc e he
-    · rw [h]; intro e'' _; right; exact Nat.le_refl _
+    · rw [h]; exact hc
+    · rw [h]
+      have : Gen.mtudBlackHoleMtu s.currentMtu s.det.blackHoleDetected.1.minMtu ≤ s.currentMtu := Nat.min_le_left _ _
+      simp only; omega
   | peerMax v =>
     simp only [step] at hp ⊢
-    rcases peerMax_cases s v with ⟨hn, h⟩ | ⟨e, st, _, _, h⟩ | ⟨e, he, hns, h⟩
-    · rw [h]; intro e' he'; simp [hn] at he'
+    rcases peerMax_cases s v with ⟨_, h⟩ | ⟨_, _, _, _, h⟩ | ⟨_, _, _, h⟩
+    · rw [h]; exact Nat.min_le_right _ _
     · rw [h] at hp; simp at hp
-    · rw [h]
-      intro e'' he''
-      simp only [Option.some.injEq] at he''; subst he''
-      left; exact Nat.min_le_right _ _
+    · rw [h]; exact Nat.min_le_right _ _
   | reset c m =>
     simp only [step]
     cases hst : s.state with
-    | none => rw [reset_disabled s c m hst]; intro e' he'; simp at he'
-    | some e =>
-      rw [reset_enabled s c m e hst]
-      intro e'' he''
-      simp only [Option.some.injEq] at he''; subst he''
-      left; exact Nat.min_le_right _ _
+    | none => rw [reset_disabled s c m hst]; exact Nat.min_le_right _ _
+    | some e => rw [reset_enabled s c m e hst]; exact Nat.min_le_right _ _
 
 /-! ### at most one probe outstanding (bookkeeping by the caller agrees with the component) -/
 
@@ -1453,7 +1548,8 @@ theorem measure_bound (st : SearchState) : measure st ≤ 4 * (st.upperBound + s
 
 /-- a detected black hole: `current_mtu = min_mtu`, burst table cleared, search suspended for the cooldown -/
 theorem black_hole_effects (s : State) (now : Nat) (h : (step s (.blackHole now)).2 = .bool true) :
-    (step s (.blackHole now)).1.currentMtu = s.det.minMtu
+    (step s (.blackHole now)).1.currentMtu = Nat.min s.currentMtu s.det.minMtu
+    ∧ (step s (.blackHole now)).1.peerMax = s.peerMax
     ∧ (step s (.blackHole now)).1.det.minMtu = s.det.minMtu
     ∧ (step s (.blackHole now)).1.det.bursts = []
     ∧ (step s (.blackHole now)).1.det.current = none
@@ -1465,7 +1561,8 @@ theorem black_hole_effects (s : State) (now : Nat) (h : (step s (.blackHole now)
   rcases bhd_cases s now with ⟨_, hh⟩ | ⟨ht, hh⟩
   · rw [hh] at h; simp at h
   · rw [hh]
-    refine ⟨hmin, hmin, hclr ht, hcur, fun e he => by simp [he, Enabled.onBlackHoleDetected], fun hn => by simp [hn], hiff.1 ht⟩
+    refine ⟨by simp only [hmin, Gen.mtudBlackHoleMtu], rfl, hmin, hclr ht, hcur,
+      fun e he => by simp [he, Enabled.onBlackHoleDetected], fun hn => by simp [hn], hiff.1 ht⟩
 
 /-- and it is detected exactly when, after closing the current burst, more than THRESHOLD bursts are suspicious -/
 theorem black_hole_iff (s : State) (now : Nat) :
@@ -1516,8 +1613,8 @@ def Start (s0 : State) : Prop :=
 
 theorem new_eq (i m : Nat) (p : Option Nat) (cfg : Config) (s : State) (h : Mtud.new i m p cfg = some s) :
     m ≤ i ∧ s.det = Detector.new m
-    ∧ ((p = none ∧ s.currentMtu = i ∧ s.state = some ⟨.initial, Gen.maxUdpPayload, cfg⟩)
-      ∨ (∃ v, p = some v ∧ s.currentMtu = Nat.min i v ∧ s.state = some ⟨.initial, v, cfg⟩)) := by
+    ∧ ((p = none ∧ s.currentMtu = i ∧ s.peerMax = Gen.maxUdpPayload ∧ s.state = some ⟨.initial, Gen.maxUdpPayload, cfg⟩)
+      ∨ (∃ v, p = some v ∧ s.currentMtu = Nat.min i v ∧ s.peerMax = v ∧ s.state = some ⟨.initial, v, cfg⟩)) := by
   have hle : m ≤ i := by
     cases hlt : decide (i < m) with
     | true => have := (new_panics_iff i m p cfg).2 (of_decide_eq_true hlt); rw [this] at h; cases h
@@ -1527,24 +1624,27 @@ theorem new_eq (i m : Nat) (p : Option Nat) (cfg : Config) (s : State) (h : Mtud
   | none =>
     simp only [Mtud.new, hok, Bool.not_true, Bool.false_eq_true, if_false, Option.some.injEq] at h
     subst h
-    exact ⟨hle, rfl, Or.inl ⟨rfl, rfl, rfl⟩⟩
+    exact ⟨hle, rfl, Or.inl ⟨rfl, rfl, rfl, rfl⟩⟩
   | some v =>
     simp only [Mtud.new, hok, Bool.not_true, Bool.false_eq_true, if_false, Option.some.injEq] at h
     subst h
     exact ⟨hle, by simp [onPeerMax, withState, Enabled.new], Or.inr ⟨v, rfl, by simp [onPeerMax, withState, Enabled.new, Gen.mtudPeerClamp],
-      by simp [onPeerMax, withState, Enabled.new]⟩⟩
+      by simp [onPeerMax, withState, Enabled.new], by simp [onPeerMax, withState, Enabled.new]⟩⟩
 
 theorem start_ginv (s0 : State) (h : Start s0) : GInv s0 := by
   rcases h with ⟨i, m, p, cfg, h⟩ | ⟨i, m, h⟩
   · obtain ⟨_, hd, hor⟩ := new_eq i m p cfg s0 h
-    refine ⟨fun e he st hph => ?_, by rw [hd]; simp [Detector.new]⟩
-    rcases hor with ⟨_, _, hs⟩ | ⟨v, _, _, hs⟩ <;> (rw [hs] at he; cases he; cases hph)
-  · subst h; exact ⟨fun e he => by simp [disabled, withState] at he, by simp [disabled, withState, Detector.new]⟩
+    refine ⟨fun e he st hph => ?_, by rw [hd]; simp [Detector.new], fun e he => ?_⟩
+    · rcases hor with ⟨_, _, _, hs⟩ | ⟨v, _, _, _, hs⟩ <;> (rw [hs] at he; cases he; cases hph)
+    · rcases hor with ⟨_, _, hpm, hs⟩ | ⟨v, _, _, hpm, hs⟩ <;> (rw [hs] at he; cases he; rw [hpm])
+  · subst h
+    exact ⟨fun e he => by simp [disabled, withState] at he, by simp [disabled, withState, Detector.new],
+      fun e he => by simp [disabled, withState] at he⟩
 
 theorem start_slot (s0 : State) (h : Start s0) : slot s0 = none := by
   rcases h with ⟨i, m, p, cfg, h⟩ | ⟨i, m, h⟩
   · obtain ⟨_, _, hor⟩ := new_eq i m p cfg s0 h
-    rcases hor with ⟨_, _, hs⟩ | ⟨v, _, _, hs⟩ <;> simp [slot, hs, slotE]
+    rcases hor with ⟨_, _, _, hs⟩ | ⟨v, _, _, _, hs⟩ <;> simp [slot, hs, slotE]
   · subst h; simp [slot, disabled, withState]
 
 /-- the configuration in force (`none` when discovery is disabled) -/
@@ -1555,28 +1655,43 @@ theorem start_sinv (s0 : State) (h : Start s0) (h3 : ∀ cfg, configOf s0 = some
   refine ⟨h3 e.config (by simp [configOf, he]), fun st hph => ?_⟩
   rcases h with ⟨i, m, p, cfg, h⟩ | ⟨i, m, h⟩
   · obtain ⟨_, _, hor⟩ := new_eq i m p cfg s0 h
-    rcases hor with ⟨_, _, hs⟩ | ⟨v, _, _, hs⟩ <;> (rw [hs] at he; cases he; cases hph)
+    rcases hor with ⟨_, _, _, hs⟩ | ⟨v, _, _, _, hs⟩ <;> (rw [hs] at he; cases he; cases hph)
   · subst h; simp [disabled, withState] at he
 
-theorem start_floor (s0 : State) (h : Start s0) : Floor s0 := by
-  intro e he
-  rcases h with ⟨i, m, p, cfg, h⟩ | ⟨i, m, h⟩
+/-- as `Start`, with what `PathData::new` guarantees for `disabled` too: the initial MTU is at least `min_mtu`
+    (`new` asserts it) -/
+def StartOk (s0 : State) : Prop :=
+  (∃ i m p cfg, Mtud.new i m p cfg = some s0) ∨ (∃ i m, m ≤ i ∧ s0 = disabled i m)
+
+theorem StartOk.start {s0 : State} (h : StartOk s0) : Start s0 := by
+  rcases h with h | ⟨i, m, _, h⟩
+  · exact Or.inl h
+  · exact Or.inr ⟨i, m, h⟩
+
+theorem start_floor (s0 : State) (h : StartOk s0) : Floor s0 := by
+  unfold Floor
+  rcases h with ⟨i, m, p, cfg, h⟩ | ⟨i, m, hle, h⟩
   · obtain ⟨hle, hd, hor⟩ := new_eq i m p cfg s0 h
-    rcases hor with ⟨_, hc, hs⟩ | ⟨v, _, hc, hs⟩
-    · rw [hs] at he; cases he
-      rw [hd, hc]; simp only [Detector.new, Nat.min_def]; split <;> omega
-    · rw [hs] at he; cases he
-      rw [hd, hc]; simp only [Detector.new, Nat.min_def]; split <;> split <;> omega
-  · subst h; simp [disabled, withState] at he
+    rcases hor with ⟨_, hc, hpm, _⟩ | ⟨v, _, hc, hpm, _⟩
+    · rw [hd, hc, hpm]; simp only [Detector.new, Nat.min_def]; split <;> omega
+    · rw [hd, hc, hpm]; simp only [Detector.new, Nat.min_def]; split <;> split <;> omega
+  · subst h; simp only [disabled, withState, Detector.new, Nat.min_def]; split <;> omega
 
+/-- the ceiling holds from the start if the initial MTU is a possible UDP payload size (≤ 65527), … -/
 theorem start_ceil (s0 : State) (h : Start s0) (hi : s0.currentMtu ≤ Gen.maxUdpPayload) : Ceil s0 := by
-  intro e he
+  unfold Ceil
   rcases h with ⟨i, m, p, cfg, h⟩ | ⟨i, m, h⟩
   · obtain ⟨_, _, hor⟩ := new_eq i m p cfg s0 h
-    rcases hor with ⟨_, hc, hs⟩ | ⟨v, _, hc, hs⟩
-    · rw [hs] at he; cases he; left; exact hi
-    · rw [hs] at he; cases he; left; rw [hc]; exact Nat.min_le_right _ _
-  · subst h; simp [disabled, withState] at he
+    rcases hor with ⟨_, hc, hpm, _⟩ | ⟨v, _, hc, hpm, _⟩
+    · rw [hpm]; exact hi
+    · rw [hc, hpm]; exact Nat.min_le_right _ _
+  · subst h; exact hi
+
+/-- … and in any case from the moment a peer limit has been received -/
+theorem peerMax_ceil (s : State) (v : Nat) : Ceil (step s (.peerMax v)).1 := by
+  unfold Ceil
+  simp only [step]
+  rcases peerMax_cases s v with ⟨_, h⟩ | ⟨_, _, _, _, h⟩ | ⟨_, _, _, h⟩ <;> rw [h] <;> exact Nat.min_le_right _ _
 
 theorem exec_ginv (s0 : State) (h : GInv s0) (ops : List Op) : GInv (exec s0 ops) :=
   exec_induct GInv (fun s op hg hp => step_ginv s op hg hp) ops s0 h
@@ -1584,10 +1699,13 @@ theorem exec_ginv (s0 : State) (h : GInv s0) (ops : List Op) : GInv (exec s0 ops
 theorem exec_sinv (s0 : State) (h : SInv s0) (ops : List Op) (hc : okRun Contract s0 ops) : SInv (exec s0 ops) :=
   exec_induct_c Contract SInv (fun s op hi hc hp => step_sinv s op hi hc hp) ops s0 h hc
 
-theorem exec_floor (s0 : State) (h : SInv s0) (hf : Floor s0) (ops : List Op)
-    (hc : okRun (fun s op => Contract s op ∧ FloorContract s op) s0 ops) : Floor (exec s0 ops) :=
-  (exec_induct_c (fun s op => Contract s op ∧ FloorContract s op) (fun s => SInv s ∧ Floor s)
-    (fun s op hi hc hp => ⟨step_sinv s op hi.1 hc.1 hp, step_floor s op hi.1 hi.2 hc.1 hc.2 hp⟩) ops s0 ⟨h, hf⟩ hc).2
+/-- the caller assumptions for the floor as a state invariant -/
+def FloorRun (s : State) (op : Op) : Prop := Contract s op ∧ ResetContract s op ∧ PeerMonotone s op
+
+theorem exec_floor (s0 : State) (h : SInv s0) (hf : Floor s0) (ops : List Op) (hc : okRun FloorRun s0 ops) :
+    Floor (exec s0 ops) :=
+  (exec_induct_c FloorRun (fun s => SInv s ∧ Floor s)
+    (fun s op hi hc hp => ⟨step_sinv s op hi.1 hc.1 hp, step_floor s op hi.1 hi.2 hc.1 hc.2.1 hc.2.2 hp⟩) ops s0 ⟨h, hf⟩ hc).2
 
 theorem exec_ceil (s0 : State) (h : GInv s0) (hc : Ceil s0) (ops : List Op) : Ceil (exec s0 ops) :=
   (exec_induct (fun s => GInv s ∧ Ceil s)
@@ -1686,7 +1804,7 @@ theorem start_pminv (s0 : State) (h : (∃ i m p cfg, Mtud.new i m p cfg = some 
   intro e he
   rcases h with ⟨i, m, p, cfg, h, hp⟩ | ⟨i, m, h⟩
   · obtain ⟨_, _, hor⟩ := new_eq i m p cfg s0 h
-    rcases hor with ⟨_, _, hs⟩ | ⟨v, hv, _, hs⟩
+    rcases hor with ⟨_, _, _, hs⟩ | ⟨v, hv, _, _, hs⟩
     · rw [hs] at he; cases he; show Gen.maxUdpPayload < 65536; decide
     · rw [hs] at he; cases he; exact hp v hv
   · subst h; simp [disabled, withState] at he
@@ -1697,7 +1815,8 @@ def cfg0 : Config := Config.make 0 1200 0 0
 
 /-- searching between 1200 and 1200 with `minimum_change = 0`, nothing in flight -/
 def stuck (d : Detector) : State :=
-  { currentMtu := 1200, state := some ⟨.searching ⟨1200, 1200, 0, 1200, none, 0⟩, Gen.maxUdpPayload, cfg0⟩, det := d }
+  { currentMtu := 1200, state := some ⟨.searching ⟨1200, 1200, 0, 1200, none, 0⟩, Gen.maxUdpPayload, cfg0⟩, det := d,
+    peerMax := Gen.maxUdpPayload }
 
 /-- one round: poll (returns a probe), then that probe is acknowledged -/
 def round (s : State) (pn : Nat) : State := (step (step s (.poll 0 pn)).1 (.acked true pn 1200)).1
@@ -1705,7 +1824,8 @@ def round (s : State) (pn : Nat) : State := (step (step s (.poll 0 pn)).1 (.acke
 theorem stuck_round (d : Detector) (pn : Nat) :
     (step (stuck d) (.poll 0 pn)).2 = .probe (some 1200) ∧ round (stuck d) pn = stuck (d.onProbeAcked pn 1200) := by
   have h1 : step (stuck d) (.poll 0 pn) =
-      ({ currentMtu := 1200, state := some ⟨.searching ⟨1200, 1200, 0, 1200, some pn, 0⟩, Gen.maxUdpPayload, cfg0⟩, det := d },
+      ({ currentMtu := 1200, state := some ⟨.searching ⟨1200, 1200, 0, 1200, some pn, 0⟩, Gen.maxUdpPayload, cfg0⟩, det := d,
+         peerMax := Gen.maxUdpPayload },
        .probe (some 1200)) := by
     simp [step, stuck, pollTransmit, Enabled.pollTransmit, Enabled.pollSearching, Gen.mtudRetransmit,
       Gen.mtudLastProbeSucceeded, SearchState.nextMtuToProbe, SearchState.pick, Gen.mtudMidpoint, Gen.mtudStop]
